@@ -728,3 +728,46 @@ func wrapFree(v ssa.Value, d int) bool {
 	}
 	return true
 }
+
+// ruleC15Thresholds: eligibility tests of pickForCompaction: a segment is skipped only when strictly below a threshold.
+func ruleC15Thresholds(r *Run, p *Program, rule string) {
+	f := p.Fn("(*pogreb.DB).pickForCompaction")
+	if !r.anchor(rule, "(*pogreb.DB).pickForCompaction", f != nil) {
+		return
+	}
+	r.fn(funcKey(f))
+	n := 0
+	for _, b := range f.Blocks {
+		c := edgeCond(b, 0)
+		if c == nil || c.X == nil {
+			continue
+		}
+		for _, thr := range []string{"pogreb.Options.compactionMinFragmentation", "pogreb.Options.compactionMinSegmentSize"} {
+			xr, yr := isFieldLoad(c.X, thr), isFieldLoad(c.Y, thr)
+			if !xr && !yr {
+				continue
+			}
+			n++
+			// which edge skips the segment: the one that leads back to the loop without reaching an append
+			strict := (yr && c.Op == token.LSS) || (xr && c.Op == token.GTR)
+			r.check(strict, rule, funcKey(f)+":"+strings.TrimPrefix(thr, "pogreb.Options."), p.Pos(c.If.Cond.Pos()),
+				"a segment is skipped only when strictly below the threshold", "the eligibility test against "+strings.TrimPrefix(thr, "pogreb.Options.")+" is not 'value < threshold => skip' ("+valString(c.If.Cond)+"): a segment exactly at the threshold - e.g. a completely dead full segment, whose fragmentation is exactly 0.5 with the header counted - is never compacted and dead segments accumulate")
+			// and the true edge of "<" is the skipping one
+			if strict {
+				var app ssa.Instruction
+				instrsOf(f, func(in ssa.Instruction) {
+					if cc, ok := in.(*ssa.Call); ok {
+						if bi, ok := cc.Call.Value.(*ssa.Builtin); ok && bi.Name() == "append" {
+							app = cc
+						}
+					}
+				})
+				if app != nil {
+					skips := edgeDominatesNot(f, b, 0, app)
+					r.check(skips, rule, funcKey(f)+":"+strings.TrimPrefix(thr, "pogreb.Options.")+":skip-edge", p.Pos(c.If.Cond.Pos()), "below the threshold the segment is not picked", "the segment is picked when below the threshold and skipped otherwise (inverted test)")
+				}
+			}
+		}
+	}
+	r.universe(rule, n, 2)
+}
